@@ -145,7 +145,7 @@ func (ev *Evidence) finish() {
 }
 
 func (ev *Evidence) write() {
-	dir := filepath.Join(verifDir, "evidence")
+	dir := evidenceDir
 	os.MkdirAll(dir, 0o755)
 	data, _ := json.MarshalIndent(ev, "", " ")
 	os.WriteFile(filepath.Join(dir, ev.PropertyID+".json"), data, 0o644)
